@@ -4,7 +4,7 @@ import verif_fixture
 
 
 def getMaintProcDesc(procedure):
-    verif_fixture.CALLS.append(('callout', 'xcallouts', procedure))
+    verif_fixture.CALLS.append(('callout', 'ycallouts', procedure))
     if procedure == 'FIX0001':
         return json.dumps(['Fixture procedure one.'])
     if procedure == 'FIXBOOM':
